@@ -174,10 +174,12 @@ pub fn run(mode: &str, args: &Args) {
                 let executable = raw.validate(validator).expect("validates").create_executable();
                 let config = ExecutionConfig::for_notarized_transaction(network.clone());
                 k += 1;
-                let receipt = if k % every == 0 {
+                let base = run_injected(db, &config, &executable, 0).expect("no panic");
+                let pays_royalty = matches!(&base.result, TransactionResult::Commit(c) if !c.fee_destination.to_royalty_recipients.is_empty());
+                let receipt = if k % every == 0 || pays_royalty {
                     sweep(&mut out, db, &config, &executable, label, max_points, k % (every * 5) == 0)
                 } else {
-                    run_injected(db, &config, &executable, 0).expect("no panic")
+                    base
                 };
                 if let TransactionResult::Commit(c) = &receipt.result {
                     db.commit(&c.state_updates.create_database_updates());
